@@ -39,6 +39,9 @@ type Profile struct {
 	Dim    int      `json:"dim"`
 	// Variant selects one concrete expansion of configuration tokens (M, efC, language, metadata value types).
 	Variant int `json:"variant"`
+	// NoFinalRestarts: the behaviours use calls that are not journaled by design (core.DB.VacuumGraph with an
+	// arbitrary horizon), so the replayer appends no Close/Open cycles
+	NoFinalRestarts bool `json:"no_final_restarts"`
 	// AutoMaint leaves automatic snapshot/rewrite triggers enabled with tiny thresholds.
 	AutoMaint bool `json:"auto_maint"`
 }
